@@ -1,40 +1,123 @@
 (* C06 -- Event-file rows assemble into exactly the annotation the sidecar prescribes.
    Property theorems only; each closed with [exact] and followed by Print Assumptions.
 
-   PART A states the property for the code as it now is: /repo carries the fix: commits
-   a455136 (empty text like n/a), 37fb060 (re.escape), a2f08b3 (empty value cell),
-   2ad4134 (_remover tests for a comma), a8ad4f5 (one occurrence at a time) and fd59dc0
-   (positional splice); the model follows it at [fixed = true] and that is what the
-   correspondence run compares with the implementation.
-   PART B is the record of the repaired defects: the same model at [fixed = false] is the
-   code before those commits (checkable with VERIF_C06_FIXED=0 against an unpatched tree). *)
-From Coq Require Import List NArith Bool.
+   PART A states the property for the code as it is NOW: /repo contains the fix commits
+   a455136 (empty text treated like n/a), 37fb060 (re.escape of the reference), a2f08b3
+   (empty value cell skipped), 2ad4134 (_remover tests for a comma), a8ad4f5 (one
+   occurrence at a time), fd59dc0 (positional splice) and 220dc27 (_handle_transforms works
+   on a copy).  The model follows it at [fixed = true], [keepcat = false]; this is the mode
+   the correspondence run compares with the implementation (harness defaults
+   VERIF_C06_FIXED=1, VERIF_C06_KEEPCAT=0).
+   PART B is the RECORD of the repaired defects: [fixed = false] / [keepcat = true] is the
+   behaviour BEFORE those commits.  Every theorem there is about that past behaviour and is
+   labelled with the commit that repaired it; none of them says anything is still wrong.
+   (Checkable with VERIF_C06_FIXED=0 VERIF_C06_KEEPCAT=1 against a tree at 5312cdc.) *)
+From Coq Require Import List NArith Bool Sorted.
 From HV Require Import Base.Res Base.Str Model.Parse Model.RefSplice Model.Assemble
   Model.AssembleOps
   Proofs.ParseProofs Proofs.AssembleProofs Proofs.AssembleTotal Proofs.AssembleOpsProofs
-  Proofs.SpliceLiteralProofs.
+  Proofs.SpliceLiteralProofs Proofs.ColumnKindProofs.
 Import ListNotations.
 
-(* ====================== PART A: the code as it now is (fixed = true) ====================== *)
+(* ============ PART A: the code as it is now (fixed = true, keepcat = false) ============ *)
 
-(* The assembled annotation of row i is the ", "-join, in column order, of the non-empty,
-   non-n/a parts; a referenced column is spliced into the others ([row_part] folds
-   replace_ref over the referenced columns' texts of the same row) and is not listed
-   itself ([spec_row] drops the referenced names).  For ALL sidecars, tables, rows and
-   every enumeration order of the reference set. *)
+(* WHICH columns are listed and WHAT each contributes, read off the sidecar's JSON shape
+   ([transformers_of cols sc] is the list the assembly uses; [cols] = the table's column
+   names, [sc] = the loaded sidecar).  These theorems characterise _detect_column_type,
+   _get_sidecar_basic_map, _finalize_mapping and get_transformers of the model; without
+   them C06_row_is_union below would only be relative to the model's own list. *)
+
+(* the HED column of the table is listed as it is (identity), whatever the sidecar says *)
+Theorem C06_hed_column_kind :
+  forall cols sc, mem hed_key cols = true -> assoc hed_key (transformers_of cols sc) = Some XId.
+Proof. exact hed_column_kind. Qed.
+Print Assumptions C06_hed_column_kind.
+
+(* a table column whose sidecar entry has "HED": {key: text, ...} (all texts strings)
+   contributes the entry selected by its cell, over exactly those key/text pairs *)
+Theorem C06_categorical_kind :
+  forall cols sc c kv entries,
+  mem c cols = true -> str_eqb c hed_key = false ->
+  assoc c sc = Some (JDict kv) -> assoc hed_key kv = Some (JDict (str_entries entries)) ->
+  assoc c (transformers_of cols sc) = Some (XCat entries).
+Proof. exact categorical_kind. Qed.
+Print Assumptions C06_categorical_kind.
+
+(* a table column whose sidecar entry has "HED": "...#..." contributes that template *)
+Theorem C06_value_kind :
+  forall cols sc c kv s,
+  mem c cols = true -> str_eqb c hed_key = false ->
+  assoc c sc = Some (JDict kv) -> assoc hed_key kv = Some (JStr s) -> memc ch_hash s = true ->
+  assoc c (transformers_of cols sc) = Some (XValue s).
+Proof. exact value_kind. Qed.
+Print Assumptions C06_value_kind.
+
+(* NOT listed (contribute nothing): names that are not table columns; table columns without
+   a sidecar entry (other than HED); entries that are not a JSON object or have no "HED" key *)
+Theorem C06_unlisted_kinds :
+  forall cols sc c,
+  (mem c cols = false -> assoc c (transformers_of cols sc) = None) /\
+  (str_eqb c hed_key = false -> assoc c sc = None -> assoc c (transformers_of cols sc) = None) /\
+  (str_eqb c hed_key = false ->
+   forall e, assoc c sc = Some e ->
+   (match e with JDict kv => assoc hed_key kv = None | _ => True end) ->
+   assoc c (transformers_of cols sc) = None).
+Proof. exact unlisted_kinds. Qed.
+Print Assumptions C06_unlisted_kinds.
+
+(* the complete table: every name, every entry shape (incl. malformed entries, which the code
+   lists as identity columns -- [column_xform] spells out the remaining cases) *)
+Theorem C06_listed_columns :
+  forall cols sc c,
+  assoc c (transformers_of cols sc) = if mem c cols then column_xform sc c else None.
+Proof. exact listed_columns. Qed.
+Print Assumptions C06_listed_columns.
+
+(* "in column order": the listed names are distinct and sorted by code points (Python str
+   order), for every table column order and sidecar order *)
+Theorem C06_listed_names_sorted :
+  forall cols sc,
+  StronglySorted (fun a b : str => str_ltb b a = false) (map fst (transformers_of cols sc)) /\
+  NoDup (map fst (final_column_map cols sc)).
+Proof. exact (fun cols sc => conj (listed_names_sorted cols sc) (proj1 (final_map_assoc cols sc))). Qed.
+Print Assumptions C06_listed_names_sorted.
+
+Example C06_listed_nonvacuous :
+  transformers_of (map fst (t_cols ex_table)) ex_sidecar
+  = [ (hed_key, XId);
+      ([99]%N, XCat [([103]%N, [82]%N)]);
+      ([118]%N, XValue [40; 123; 99; 125; 44; 32; 76; 47; 35; 41]%N) ].
+Proof. exact ex_listed. Qed.
+
+(* The assembled annotation of row i: with [tf] the SPECIFIED list above, every listed column
+   is the table column with its transformer applied cell by cell, and row i is the ", "-join,
+   in that order, of the non-empty, non-n/a parts; a referenced column is spliced into the
+   others ([row_part] folds replace_ref over the referenced columns' texts of the same row)
+   and is not listed itself ([spec_row] drops the referenced names).  For ALL sidecars,
+   tables, rows and every enumeration order of the reference set.
+   Honest reading: [spec_row] re-uses the model's helpers (get_col, replace_ref, keep_part);
+   what this theorem adds to the kinds theorems is that the column-major pandas-style
+   computation equals the row-wise description; what replace_ref / keep_part / the
+   transformers do is stated by the theorems that follow. *)
 Theorem C06_row_is_union :
   forall (st st' : tabular) (ord : list str) (rows : list str),
   series_a true st ord = Ok (st', rows) -> wf_table (tb_df st) ->
-  exists all tf,
-    handle_transforms true st = Ok (st', all, tf) /\
+  let tf := transformers_of (map fst (t_cols (tb_df st))) (tb_sidecar st) in
+  exists all,
+    Forall2 (fun (nf : str * xform) (nc : str * list str) =>
+               fst nc = fst nf /\
+               exists c, get_col (fst nf) (t_cols (tb_df st)) = Ok c /\
+                         snd nc = map (apply_xform true (snd nf)) c) tf all /\
     length rows = t_rows (tb_df st) /\
     forall i, i < t_rows (tb_df st) ->
       spec_row true all (set_order ord (column_refs (tb_sidecar st))) (map fst tf) i
       = Ok (nth i rows []).
-Proof. exact (row_is_union true). Qed.
+Proof. exact row_is_union_listed. Qed.
 Print Assumptions C06_row_is_union.
 
-(* The parts: each listed column is the table column with the transformer of its kind
+(* (This one is the definition of [transform] restated for an arbitrary list -- kept for
+   reference; the content is in the kinds theorems above and in C06_row_is_union.)
+   The parts: each listed column is the table column with the transformer of its kind
    applied cell by cell (HED column: the cell; categorical: the entry selected by the
    cell, "" when there is none; value: n/a and empty pass as n/a, otherwise every '#' is
    the cell). *)
@@ -85,7 +168,12 @@ Proof. exact (row_order true). Qed.
 Print Assumptions C06_row_order.
 
 (* Same answer every time it is asked; neither the table (cells, columns, row order)
-   nor the sidecar is changed (only dtype marks of the internal frame are). *)
+   nor the sidecar is changed.  Honest reading: the model is functional, so "table and
+   sidecar unchanged" holds by construction of the model (handle_transforms rebuilds the
+   state with the same tb_df/tb_sidecar); the content proved is that the second answer on
+   the returned object equals the first.  In-place mutation by pandas is outside the model:
+   that clause is TESTED on the implementation (cell values, columns, row order, index and
+   sidecar compared before/after on every generated case). *)
 Theorem C06_deterministic_inputs_unchanged :
   forall (st st' : tabular) (ord : list str) (rows : list str),
   series_a true st ord = Ok (st', rows) ->
@@ -138,46 +226,35 @@ Example C06_near_misses_nonvacuous :
 Proof. exact (conj near_misses_not_skipped backslash_spliced). Qed.
 
 (* "Gives the same answer every time it is asked" over HISTORIES on one object
-   (Model/AssembleOps.v): for every sequence of assemblies and reset_column_mapper
-   switches, each answer equals the assembly of a fresh object holding the current table
-   and the CURRENT sidecar -- the object's state is just the current sidecar ([run_spec]).
-   Holds of the code as it is ([keepcat = true]) and for both values of [fixed]. *)
+   (Model/AssembleOps.v), for the code as it is now ([run true false]): for EVERY sequence of
+   assemblies, reset_column_mapper switches and set_cell edits, each answer equals the
+   assembly of a fresh object holding the current table and the CURRENT sidecar -- the
+   object's state is just (table, current sidecar) ([run_spec]). *)
 Theorem C06_history_answers_current_sidecar :
-  forall (fixed keepcat : bool) (ops : list op) (o : obj),
-  forallb (fun p => negb (is_setcell p)) ops = true ->
-  run fixed keepcat o ops = run_spec fixed (tb_df (o_tab o)) (tb_sidecar (o_tab o)) ops.
-Proof. exact reset_history_current. Qed.
+  forall (ops : list op) (o : obj),
+  run true false o ops = run_spec true (tb_df (o_tab o)) (tb_sidecar (o_tab o)) ops.
+Proof. exact (fun ops o => history_current true false ops o (or_introl eq_refl)). Qed.
 Print Assumptions C06_history_answers_current_sidecar.
 
-(* FULL STATEMENT with cell edits (set_cell) in the history:
-     forall ops o, run true true o ops = run_spec true (tb_df (o_tab o)) (tb_sidecar (o_tab o)) ops.
-   It is FALSE of the code as it is: _handle_transforms leaves the 'category' dtype on the
-   object's frame, so after an assembly set_cell of a categorical column to a value it did
-   not hold raises TypeError, while a fresh object accepts the edit (finding C06-F7).
-   Witness, and the same history under the repair (work on a copy: [keepcat = false]): *)
-Theorem C06_set_cell_after_assembly_refuted :
-  nth 1 (run true true ex_obj ops_edit_after) RNone = RExn TypeError /\
-  nth 0 (run true true ex_obj ops_edit_fresh) (RExn TypeError) = RNone /\
-  run true false ex_obj ops_edit_after
-  = run_spec true (tb_df ex_st) (tb_sidecar ex_st) ops_edit_after.
-Proof. exact set_cell_after_assembly_refuted. Qed.
-Print Assumptions C06_set_cell_after_assembly_refuted.
-
-(* ... and it holds for ALL histories (edits included) once the dtype marks are not kept. *)
-Theorem C06_history_with_edits_repaired :
+(* (the same holds for both values of [fixed]; this is the former C06_history_with_edits_repaired) *)
+Theorem C06_history_with_edits_any_fixed :
   forall (fixed : bool) (ops : list op) (o : obj),
   run fixed false o ops = run_spec fixed (tb_df (o_tab o)) (tb_sidecar (o_tab o)) ops.
 Proof. exact (fun fixed ops o => history_current fixed false ops o (or_introl eq_refl)). Qed.
-Print Assumptions C06_history_with_edits_repaired.
+Print Assumptions C06_history_with_edits_any_fixed.
 
 Example C06_history_nonvacuous :
-  run true true ex_obj [OAssemble []; OReset ex_sidecar_b; OAssemble []; OReset ex_sidecar; OAssemble []]
+  run true false ex_obj [OAssemble []; OReset ex_sidecar_b; OAssemble []; OSetCell 1 1 [103]%N;
+                         OAssemble []; OReset ex_sidecar; OAssemble []]
   = [ RRows [ [66; 44; 32; 40; 82; 44; 32; 76; 47; 120; 41]%N; [40; 76; 47; 121; 41]%N; [] ];
       RNone;
       RRows [ [66; 44; 32; 82; 44; 32; 76; 47; 120]%N; []; [82]%N ];
       RNone;
-      RRows [ [66; 44; 32; 40; 82; 44; 32; 76; 47; 120; 41]%N; [40; 76; 47; 121; 41]%N; [] ] ].
-Proof. exact ex_switch. Qed.
+      RRows [ [66; 44; 32; 82; 44; 32; 76; 47; 120]%N; [82; 44; 32; 76; 47; 121]%N; [82]%N ];
+      RNone;
+      RRows [ [66; 44; 32; 40; 82; 44; 32; 76; 47; 120; 41]%N;
+              [40; 82; 44; 32; 76; 47; 121; 41]%N; [] ] ].
+Proof. exact ex_switch_current. Qed.
 
 (* splice_tree + splice_well_delimited, BOUNDED: for every template over
    {a, blank, ',', '(', ')', {r}} of at most 7 symbols that is delimiter-well-formed and
@@ -192,8 +269,9 @@ Proof. exact splice_tree_fixed_bounded. Qed.
 Print Assumptions C06_splice_tree_bounded.
 
 (* Non-vacuity: a 3-row table with a categorical column referenced from a value template
-   and a HED column.  Row 2 (categorical cell n/a) is "(L/y)" for the code as it now is;
-   before the repair it was "(, L/y)". *)
+   and a HED column.  Row 2 (categorical cell n/a) is "(L/y)" for the code as it is now
+   ([series_a true], third conjunct); the second conjunct records the behaviour before fix
+   commit a455136 ([series_a false]): "(, L/y)". *)
 Example C06_nonvacuous :
   wf_table ex_table /\
   (exists st', series_a false ex_st [] =
@@ -206,9 +284,32 @@ Example C06_nonvacuous :
                 [] ])).
 Proof. exact ex_series. Qed.
 
-(* ============ PART B: record of the repaired defects (fixed = false, unrepaired code) ============ *)
+(* ==== PART B: RECORD of the repaired defects -- behaviour BEFORE the fix commits ====
+   ([fixed = false]: before a455136/37fb060/a2f08b3/2ad4134/a8ad4f5; [keepcat = true]: before
+   220dc27).  None of these statements is about the current implementation. *)
 
-(* The structural clauses already held of the unrepaired code. *)
+(* Histories without cell edits already behaved: holds for both values of both switches. *)
+Theorem C06_history_without_edits_any_mode :
+  forall (fixed keepcat : bool) (ops : list op) (o : obj),
+  forallb (fun p => negb (is_setcell p)) ops = true ->
+  run fixed keepcat o ops = run_spec fixed (tb_df (o_tab o)) (tb_sidecar (o_tab o)) ops.
+Proof. exact reset_history_current. Qed.
+Print Assumptions C06_history_without_edits_any_mode.
+
+(* REPAIRED by 220dc27 (defect C06-F7): before it, _handle_transforms left the 'category'
+   dtype on the object's frame, so after an assembly set_cell of a categorical column to a
+   value it did not hold raised TypeError while a fresh object accepted the edit
+   ([run true true]); third conjunct: the same history in the current mode is fine. *)
+Theorem C06_set_cell_after_assembly_refuted :
+  nth 1 (run true true ex_obj ops_edit_after) RNone = RExn TypeError /\
+  nth 0 (run true true ex_obj ops_edit_fresh) (RExn TypeError) = RNone /\
+  run true false ex_obj ops_edit_after
+  = run_spec true (tb_df ex_st) (tb_sidecar ex_st) ops_edit_after.
+Proof. exact set_cell_after_assembly_refuted. Qed.
+Print Assumptions C06_set_cell_after_assembly_refuted.
+
+
+(* The structural clauses already held before the fix commits ([fixed = false]). *)
 Theorem C06_unrepaired_row_is_union :
   forall (st st' : tabular) (ord : list str) (rows : list str),
   series_a false st ord = Ok (st', rows) -> wf_table (tb_df st) ->
@@ -221,7 +322,7 @@ Theorem C06_unrepaired_row_is_union :
 Proof. exact (row_is_union false). Qed.
 Print Assumptions C06_unrepaired_row_is_union.
 
-(* REPAIRED by a455136: na_is_removed was FALSE of the unrepaired code -- an empty text
+(* REPAIRED by a455136: na_is_removed was FALSE of the behaviour before that commit -- an empty text
    (n/a or unknown categorical cell) was substituted literally: "{c}, S" -> ", S". *)
 Theorem C06_na_is_removed_refuted :
   exists text ref v r, skipped v = true /\ replace_ref false text ref v = Ok r /\
@@ -244,7 +345,7 @@ Theorem C06_empty_value_cell_refuted :
 Proof. exact empty_value_cell_refuted. Qed.
 Print Assumptions C06_empty_value_cell_refuted.
 
-(* REPAIRED by 2ad4134 and a8ad4f5: for the unrepaired code the bounded splice theorem
+(* REPAIRED by 2ad4134 and a8ad4f5: for the behaviour before them the bounded splice theorem
    needed two extra hypotheses (the text does not start with a blank, the reference does
    not occur twice with only delimiters between) ... *)
 Theorem C06_unrepaired_splice_tree_bounded :
